@@ -15,6 +15,14 @@
 //!     chunks.rs, the way the crate's own tests assemble files.
 //! "root-full-v17" additionally gets the 64-byte MOHD of real files and MFOG / MCVP / GFID chunks
 //! appended (the writer cannot emit them), so that every branch of root_parser.rs is reached.
+//! The later root seeds cover variants of WmoParser (parser.rs) the populated v17/v18 files do not:
+//!   root-minimal-v18-mcvp   an empty WmoRoot written for MVER 18 (MVER + MOHD only: every optional chunk
+//!                           absent), HAS_SKYBOX set without MOSB, MCVP with 20-byte planes;
+//!   root-legion-v19-writer  populated model + a Directional light, MCVP with 16-byte planes (size % 20 != 0);
+//!   root-bfa-v20-groupnames MOGI names resolved by the "Group_i" fallback (empty name, offset behind MOGN);
+//!   root-sl-v21-writer, root-df-v22-minimal, root-tww-v23-writer: unpatched writer output for MVER 21..23.
+//! group-flat-modern is group-modern in the flat layout (MORI / MORB / MOTA / MOBS as top-level siblings);
+//! group-mliq-short / group-flat-mliq-short carry a header-only 30-byte MLIQ (below the 32-byte bound).
 //! Chunk tags are stored reversed on disk ("REVM").
 use crate::seed::{add_chunk_seq, walk_chunks, Aux, Seed};
 use crate::worker::{errname, Runner};
@@ -29,6 +37,10 @@ use wow_wmo::{
 
 pub fn seed_names(thorough: bool) -> Vec<String> {
     let mut v = vec!["root-full-v17".to_string(), "group-v17".to_string()];
+    // quick as well: both are small and reach read loops no other quick seed reaches (the top-level
+    // MORI / MORB / MOTA / MOBS arms of parse_group_file; the 20-byte MCVP plane loop of WmoParser)
+    v.push("group-flat-modern".into());
+    v.push("root-minimal-v18-mcvp".into());
     if thorough {
         v.push("root-classic-writer".into());
         v.push("root-mop-writer".into());
@@ -36,6 +48,16 @@ pub fn seed_names(thorough: bool) -> Vec<String> {
         v.push("group-writer-mop".into());
         v.push("group-modern".into());
         v.push("group-flat-v17".into());
+        // root variants no other seed has: later MVER values, absent optional chunks, MCVP in both plane
+        // layouts on a version that reads it, a Directional light, MOGI names resolved by the fallback
+        v.push("root-legion-v19-writer".into());
+        v.push("root-bfa-v20-groupnames".into());
+        v.push("root-sl-v21-writer".into());
+        v.push("root-df-v22-minimal".into());
+        v.push("root-tww-v23-writer".into());
+        // group variants: an MLIQ below the 32-byte header bound, nested in MOGP and as a top-level sibling
+        v.push("group-mliq-short".into());
+        v.push("group-flat-mliq-short".into());
     }
     v
 }
@@ -243,11 +265,108 @@ fn repair_root(mut b: Vec<u8>, n_materials: usize) -> Vec<u8> {
     b
 }
 
-fn write_root(version: WmoVersion, skybox: bool) -> Vec<u8> {
-    let m = root_model(version, skybox);
+fn write_model(m: &WmoRoot, version: WmoVersion) -> Vec<u8> {
     let mut out = Cursor::new(Vec::new());
-    WmoWriter::new().write_root(&mut out, &m, version).expect("WmoWriter::write_root");
+    WmoWriter::new().write_root(&mut out, m, version).expect("WmoWriter::write_root");
     repair_root(out.into_inner(), m.materials.len())
+}
+
+fn write_root(version: WmoVersion, skybox: bool) -> Vec<u8> {
+    write_model(&root_model(version, skybox), version)
+}
+
+/// The populated model plus a fourth light of the one type root_model does not use (kept out of
+/// root_model so that the older seeds stay byte-identical). It is the LAST light: the inventory
+/// registers the type selector of the first and the last MOLT record.
+fn root_model_directional(version: WmoVersion, skybox: bool) -> WmoRoot {
+    let mut m = root_model(version, skybox);
+    m.lights.push(WmoLight {
+        light_type: WmoLightType::Directional,
+        position: v3(4.0, 8.0, 12.0),
+        color: col(255, 255, 224, 255),
+        intensity: 0.75,
+        rotation: [0.0, 0.7071, 0.0, 0.7071],
+        attenuation_start: 0.0,
+        attenuation_end: 0.0,
+        use_attenuation: false,
+        properties: WmoLightProperties::Directional { direction: v3(0.0, 0.0, -1.0) },
+    });
+    m.header.n_lights = 4;
+    m
+}
+
+/// A WmoRoot with nothing in it: write_root emits MVER and MOHD only (every other chunk writer
+/// returns early on an empty list), so every "chunk absent" branch of WmoParser is taken.
+fn empty_root_model(version: WmoVersion) -> WmoRoot {
+    let zero = BoundingBox { min: v3(0.0, 0.0, 0.0), max: v3(0.0, 0.0, 0.0) };
+    WmoRoot {
+        version,
+        materials: Vec::new(),
+        groups: Vec::new(),
+        portals: Vec::new(),
+        portal_references: Vec::new(),
+        visible_block_lists: Vec::new(),
+        lights: Vec::new(),
+        doodad_defs: Vec::new(),
+        doodad_sets: Vec::new(),
+        bounding_box: zero,
+        textures: Vec::new(),
+        texture_offset_index_map: HashMap::new(),
+        header: WmoHeader {
+            n_materials: 0,
+            n_groups: 0,
+            n_portals: 0,
+            n_lights: 0,
+            n_doodad_names: 0,
+            n_doodad_defs: 0,
+            n_doodad_sets: 0,
+            flags: WmoFlags::empty(),
+            ambient_color: col(40, 40, 40, 255),
+        },
+        skybox: None,
+        convex_volume_planes: None,
+    }
+}
+
+/// Textures, one material and three groups, nothing else; the FIRST group has an empty name, so its
+/// MOGI name offset points at a NUL of MOGN (as in real files, whose MOGN starts with NULs).
+fn groupnames_model(version: WmoVersion) -> WmoRoot {
+    let mut m = root_model(version, false);
+    m.materials.truncate(1);
+    m.groups[0].name = String::new();
+    m.portals.clear();
+    m.portal_references.clear();
+    m.visible_block_lists.clear();
+    m.lights.clear();
+    m.doodad_defs.clear();
+    m.doodad_sets.clear();
+    m.header.n_materials = 1;
+    m.header.n_portals = 0;
+    m.header.n_lights = 0;
+    m.header.n_doodad_names = 0;
+    m.header.n_doodad_defs = 0;
+    m.header.n_doodad_sets = 0;
+    m
+}
+
+/// (offset of the chunk header, total length) of the first top-level chunk `tag`.
+fn find_chunk(b: &[u8], tag: &str) -> (usize, usize) {
+    walk_chunks(b, 0, b.len()).into_iter().find(|&(o, _)| rtag(b, o) == tag).unwrap_or_else(|| panic!("wmo: no {tag} chunk"))
+}
+
+/// MCVP with three planes. `plane_size` 20 is the record WmoParser reads (normal, distance, flags:u32),
+/// 16 the record root_parser.rs reads (4 floats); 48 bytes are not a multiple of 20.
+/// Hand-assembled: WmoWriter::write_root has no MCVP writer (WmoRoot::convex_volume_planes is never written).
+fn hand_mcvp(plane_size: usize) -> Vec<u8> {
+    let mut w = W(Vec::new());
+    for k in 0..3u32 {
+        w.f32(0.0).f32(if k == 1 { 1.0 } else { 0.0 }).f32(if k == 1 { 0.0 } else { 1.0 }).f32(k as f32 * 2.5);
+        if plane_size == 20 {
+            w.u32(k);
+        }
+    }
+    assert_eq!(w.0.len(), 3 * plane_size);
+    chunk("MCVP", &w.0)
 }
 
 /// MOHD as real files have it (64 bytes): counts, ambient colour, wmoID, bounding box, flags:u16,
@@ -474,13 +593,33 @@ fn hand_mliq() -> Vec<u8> {
     chunk("MLIQ", &w.0)
 }
 
+/// MLIQ of a liquid without vertices and tiles: the 30-byte header of the real layout alone, which is
+/// below the 32 bytes both group parsers require before they read an MliqHeader.
+/// Hand-assembled: WmoWriter::write_liquid always writes a 40-byte header (and not the layout of chunks.rs).
+fn hand_mliq_short() -> Vec<u8> {
+    let mut w = W(Vec::new());
+    w.u32(0).u32(0).u32(0).u32(0).f32(0.0).f32(0.0).f32(1.0).u16(1);
+    assert_eq!(w.0.len(), 30);
+    chunk("MLIQ", &w.0)
+}
+
 fn build_group(name: &str) -> Vec<u8> {
     match name {
         "group-writer-mop" => {
             let subs: Vec<Vec<u8>> = writer_subchunks(WmoVersion::Mop).into_iter().map(|s| s.1).collect();
             assemble_group(17, &subs)
         }
-        "group-v17" | "group-modern" | "group-flat-v17" => {
+        "group-mliq-short" | "group-flat-mliq-short" => {
+            let ws: HashMap<String, Vec<u8>> = writer_subchunks(WmoVersion::Classic).into_iter().collect();
+            let take = |t: &str| ws.get(t).cloned().unwrap_or_else(|| panic!("writer did not produce {t}"));
+            let subs = vec![hand_mopy(), take("MOVI"), take("MOVT"), take("MONR"), take("MOTV"), take("MOBA"), hand_mliq_short()];
+            if name == "group-flat-mliq-short" {
+                assemble_group_flat(17, &subs)
+            } else {
+                assemble_group(17, &subs)
+            }
+        }
+        "group-v17" | "group-modern" | "group-flat-v17" | "group-flat-modern" => {
             let ws: HashMap<String, Vec<u8>> = writer_subchunks(WmoVersion::Classic).into_iter().collect();
             let take = |t: &str| ws.get(t).cloned().unwrap_or_else(|| panic!("writer did not produce {t}"));
             let mut molr = W(Vec::new());
@@ -499,7 +638,7 @@ fn build_group(name: &str) -> Vec<u8> {
                 take("MOCV"),
                 hand_mliq(),
             ];
-            if name == "group-modern" {
+            if name == "group-modern" || name == "group-flat-modern" {
                 let mut w = W(Vec::new());
                 for i in 0..10u16 {
                     w.u16(i % 8);
@@ -536,7 +675,7 @@ fn build_group(name: &str) -> Vec<u8> {
                 }
                 subs.push(chunk("MOQG", &w.0));
             }
-            if name == "group-flat-v17" {
+            if name == "group-flat-v17" || name == "group-flat-modern" {
                 assemble_group_flat(17, &subs)
             } else {
                 assemble_group(17, &subs)
@@ -687,6 +826,16 @@ fn root_inventory(s: &mut Seed) {
     if let Some((o, _)) = find("MFOG") {
         s.field(o + 8, 4, "index", "MFOG[0].flags");
     }
+    if let Some((o, tot)) = find("MCVP") {
+        // WmoParser reads 20-byte planes (from MVER 18 on, and only when the size is a multiple of 20);
+        // the size selector itself is MCVP[0].size
+        let ver = find("MVER").map(|c| u32_at(&s.bytes, c.0 + 8)).unwrap_or(0);
+        if ver >= 18 && (tot - 8) % 20 == 0 {
+            for i in first_last((tot - 8) / 20) {
+                s.field(o + 8 + 20 * i + 16, 4, "index", format!("MCVP[{i}].flags"));
+            }
+        }
+    }
     if let Some((o, tot)) = find("GFID") {
         for i in first_last((tot - 8) / 4) {
             s.field(o + 8 + 4 * i, 4, "index", format!("GFID[{i}]"));
@@ -795,6 +944,35 @@ pub fn build(name: &str) -> Seed {
             "root-classic-writer" => write_root(WmoVersion::Classic, false),
             "root-mop-writer" => write_root(WmoVersion::Mop, true),
             "root-wod-v18-writer" => write_root(WmoVersion::Wod, true),
+            "root-minimal-v18-mcvp" => {
+                let mut b = write_model(&empty_root_model(WmoVersion::Wod), WmoVersion::Wod);
+                assert_eq!(walk_chunks(&b, 0, b.len()).len(), 2, "wmo: an empty WmoRoot is written as MVER + MOHD");
+                // MOHD.flags |= HAS_SKYBOX while the file has no MOSB chunk. Byte patch: write_header clears
+                // the flag whenever WmoRoot::skybox is None and write_root emits MOSB whenever it is Some.
+                let (o, tot) = find_chunk(&b, "MOHD");
+                assert_eq!(tot, 8 + 64);
+                b[o + 8 + 60] |= WmoFlags::HAS_SKYBOX.bits() as u8;
+                b.extend_from_slice(&hand_mcvp(20));
+                b
+            }
+            "root-legion-v19-writer" => {
+                let mut b = write_model(&root_model_directional(WmoVersion::Legion, true), WmoVersion::Legion);
+                b.extend_from_slice(&hand_mcvp(16));
+                b
+            }
+            "root-bfa-v20-groupnames" => {
+                let mut b = write_model(&groupnames_model(WmoVersion::Bfa), WmoVersion::Bfa);
+                // the LAST MOGI entry gets a name offset behind the end of MOGN. Byte patch: write_group_info
+                // computes every offset from the names it has just written, so it is always inside MOGN.
+                let (_, gn_tot) = find_chunk(&b, "MOGN");
+                let (o, tot) = find_chunk(&b, "MOGI");
+                assert_eq!(tot, 8 + 3 * 32);
+                put32(&mut b, o + 8 + 32 * 2 + 28, (gn_tot - 8) as u32 + 16);
+                b
+            }
+            "root-sl-v21-writer" => write_root(WmoVersion::Shadowlands, true),
+            "root-df-v22-minimal" => write_model(&empty_root_model(WmoVersion::Dragonflight), WmoVersion::Dragonflight),
+            "root-tww-v23-writer" => write_model(&root_model_directional(WmoVersion::WarWithin, false), WmoVersion::WarWithin),
             _ => wverif_common::tool_error(&format!("wmo: unknown seed {name}")),
         };
         let mut s = Seed::new("wmo", name, bytes);
